@@ -106,6 +106,11 @@ def run(ctx) -> None:
     ctx.rule("C11.R7-validator-sees-every-key", "the closed-schema validation runs on the component after its layers were merged, so the "
              "merge must carry every key of the document to it: override_object copies the keys that only the higher layer "
              "defines unconditionally (a misspelled option is exactly such a key - also when its value is null)")
+    ctx.rule("C11.R8-duplicate-detector-sees-every-component", "the uniqueness check runs on the components that the expansion returns, so the "
+             "expansion must return every component it generates: apply_replicate accumulates them in a list, never in a mapping or set "
+             "keyed by the identifier (which would merge duplicates before anyone can reject them)")
+    ctx.rule("C11.R9-errors-are-raised", "in the loader modules an exception object is never built and dropped: a call to an error class as an "
+             "expression statement is a rejection that does not happen")
     ctx.assume("implicit exceptions (subscripts, library calls) outside try blocks are not modelled")
     ctx.assume("calls are resolved by name (self.<method> within the class, FlowIR.<method>, module functions)")
 
@@ -294,6 +299,58 @@ def run(ctx) -> None:
 
     # ---------------- R5 -------------------------------------------------------------------------------
     check_cycle_detector(ctx, fl)
+
+    # ---------------- R9 -------------------------------------------------------------------------------
+    n_stmts = 0
+    dropped = []
+    errs_mod = ctx.repo.module("python/experiment/model/errors.py")
+    error_classes = {c.name for c in ast.walk(errs_mod.tree) if isinstance(c, ast.ClassDef)} | {"ValueError", "TypeError", "KeyError", "RuntimeError", "Exception"}
+    for rel in ("python/experiment/model/conf.py", "python/experiment/model/frontends/flowir.py", "python/experiment/model/frontends/dsl.py",
+                "python/experiment/model/frontends/dosini.py", "python/experiment/model/graph.py", "python/experiment/model/data.py",
+                "python/experiment/model/storage.py"):
+        mm = ctx.repo.module(rel)
+        for n in ast.walk(mm.tree):
+            if isinstance(n, ast.Expr):
+                n_stmts += 1
+                if isinstance(n.value, ast.Call):
+                    f_ = n.value.func
+                    nm = f_.attr if isinstance(f_, ast.Attribute) else f_.id if isinstance(f_, ast.Name) else ""
+                    if nm in error_classes:
+                        dropped.append((mm, n))
+    for (mm, n) in dropped:
+        ctx.ob("C11.R9-errors-are-raised", n, False,
+               "%s builds %s and drops it (no 'raise'): the condition it describes is not rejected and loading continues" % (mm.rel, short(n, 80)),
+               construct="%s: %s is raised" % (mm.rel.split("/")[-1], short(n, 60)))
+    if not dropped:
+        ctx.ob("C11.R9-errors-are-raised", ctx.repo.module("python/experiment/model/conf.py").tree, True,
+               "no error object is built and dropped in the loader modules (%d expression statements)" % n_stmts,
+               construct="error objects are raised or collected, never dropped")
+    ctx.floor("C11.R9-errors-are-raised", n_stmts, 500, "expression statements inspected")
+
+    # ---------------- R8 -------------------------------------------------------------------------------
+    from checks.c03 import expanded_output
+    app = fl.func("FlowIR.apply_replicate")
+    ctx.analysed(app)
+    out_name, keyed = expanded_output(app)
+    appends = [c for c in source.calls_in(app) if last_attr(c) == "append" and isinstance(c.func.value, ast.Name) and c.func.value.id == out_name]
+    for kn in keyed:
+        ctx.ob("C11.R8-duplicate-detector-sees-every-component", kn, False,
+               "apply_replicate stores the expanded components under their identifier (%s): when a component is named like a generated copy "
+               "('Sim' with replicate 2 next to an explicit 'Sim1') the later one overwrites the earlier one, so the duplicate-identifier check "
+               "of FlowIRConcrete never sees two components with the same id and the workflow loads" % short(kn, 60),
+               construct="apply_replicate: every generated component is returned")
+    if not keyed:
+        ok = bool(appends)
+        ctx.ob("C11.R8-duplicate-detector-sees-every-component", appends[0] if appends else app, ok,
+               "every generated component is appended to the returned list (%d sites)" % len(appends) if ok else
+               "cannot see how apply_replicate accumulates its result", construct="apply_replicate: every generated component is returned")
+    rcd = fl.functions.get("FlowIRConcrete.refresh_component_dictionary")
+    ctx.require(rcd is not None, "anchor missing: FlowIRConcrete.refresh_component_dictionary")
+    ctx.analysed(rcd)
+    dup = [r for r in ast.walk(rcd) if isinstance(r, ast.Raise)]
+    ctx.ob("C11.R8-duplicate-detector-sees-every-component", dup[0] if dup else rcd, bool(dup),
+           "the component dictionary refuses a second component with the same identifier" if dup else
+           "refresh_component_dictionary no longer raises for a duplicate identifier", construct="refresh_component_dictionary raises on duplicates")
 
     # ---------------- R7 -------------------------------------------------------------------------------
     from checks.c04 import novel_keys_copied
